@@ -7,7 +7,8 @@
     reset-dep, checker switches) are executed by the real doit in-process on real files with every backend and both
     checkers; per processed task the outcome (ignored / up-to-date / executed ok / failed / dependency error / error
     while saving / internal crash) and after every op the logical DB content are compared with the Lean model.
-(P) every `skip_uptodate t` (and every `skip t` of reset-dep) of the implementation must satisfy the Lean predicate
+(P) every `skip_uptodate t` of the implementation (reset-dep's `skip t` is evaluated too, as information only) must
+    satisfy the Lean predicate
     `specUpToDate`, evaluated by the driver's ghost machine from what the implementation was *seen* to execute --
     never from the DB.
 Shared machinery: harness/statuslib.py.
